@@ -175,7 +175,18 @@ def in_size(t, v):
     return sz[0] <= n and (sz[1] is None or n <= sz[1])
 
 
-def run_c01(sink, rng, n, impl, codecs, py_equal):
+def text_safe(v):
+    """every character string inside v is representable in JSON and XML 1.0 documents without loss (C02's domain)"""
+    if isinstance(v, str):
+        return all(0x20 <= ord(c) < 0x7f or 0xa0 <= ord(c) < 0xd800 for c in v)
+    if isinstance(v, dict):
+        return all(text_safe(x) for x in v.values())
+    if isinstance(v, (list, tuple)):
+        return all(text_safe(x) for x in v)
+    return True
+
+
+def run_c01(sink, rng, n, impl, codecs, py_equal, only_text_safe=False):
     """round trip of every value that satisfies the constraints written at ITS OWN member (a constraint of a same-named member
     of another type must not leak in through the compiled-type cache)"""
     for i in range(n):
@@ -188,6 +199,8 @@ def run_c01(sink, rng, n, impl, codecs, py_equal):
             for name, ast_t, v in fam['probes']:
                 key_t = [m for m in ast_t['root'] if m['name'] == 'key'][0]['t']
                 if 'key' in v and not in_size(key_t, v['key']):
+                    continue
+                if only_text_safe and not text_safe(v):
                     continue
                 sink.case((fam['text'], name, repr(v), codec))
                 r = impl.encode(spec, name, v)
